@@ -257,6 +257,8 @@ class Analyzer:
         self.known_funcs: Optional[Set[str]] = load_known_funcs()
         self.inlined_calls: List[Tuple[str, str, int]] = []
         self.spliced_at: Dict[int, FuncInfo] = {}  # id(call expression) -> helper spliced there
+        self.await_syn: Dict[int, ast.Await] = {}
+        self.awaited_via: Dict[int, ast.Call] = {}  # id(await expression) -> the call whose result it awaits through a local
         self.threaded: Set[int] = set()  # id(call expression) of spliced boolean helpers whose returns continue directly at the caller's branches
         self.env_site: Dict[int, int] = {}  # id(env of a spliced body) -> id(call expression)  # (caller, helper) pairs spliced, for the evidence
         self._summ: Dict[str, "Summary"] = {}
@@ -394,6 +396,7 @@ class Builder:
         self.root_f = f
         self.env = None
         self.inline_stack: List[str] = []
+        self.test_subst: Dict[int, ast.AST] = {}  # id(If statement) -> the condition its flag local stands for
         self.assume: Dict[Tuple[str, str], bool] = {}  # (function, local flag) -> truth value known in the statements being built
 
     # --------------------------------------------------------------- helpers
@@ -486,9 +489,23 @@ class Builder:
             out.append(("x", (EXCEPTION, False)))
         return out
 
+    def _awaited_expr(self, aw: ast.Await) -> ast.AST:
+        """what is awaited: the operand, or - `c = f(...)` ... `await c` with c bound once and used nowhere else - that call"""
+        inner = strip_cast(aw.value)
+        if isinstance(inner, ast.Name) and inner.id not in self.sc.params:
+            hows = self.sc.defs.get(inner.id, [])
+            if len(hows) == 1 and hows[0][0] in ("assign", "ann"):
+                val = hows[0][1] if hows[0][0] == "assign" else hows[0][2]
+                val = strip_cast(val) if val is not None else None
+                uses = [x for x in ast.walk(self.f.node) if isinstance(x, ast.Name) and x.id == inner.id and isinstance(x.ctx, ast.Load)]
+                if isinstance(val, ast.Call) and len(uses) == 1:
+                    self.an.awaited_via[id(aw)] = val
+                    return val
+        return inner
+
     def await_raises(self, n: Node, aw: ast.Await) -> List[Tuple[str, ExcTok]]:
         out: List[Tuple[str, ExcTok]] = []
-        inner = strip_cast(aw.value)
+        inner = self._awaited_expr(aw)
         n.suspends = True
         if isinstance(inner, ast.Call):
             cal = self._assumed_callee(inner) or self.sc.callee(inner)
@@ -1080,8 +1097,12 @@ class Builder:
                     continue
                 toks = self.call_raises(n, e, n.callee)
             elif isinstance(e, ast.Await):
+                inner = self._awaited_expr(e)
+                if id(e) in self.an.awaited_via:
+                    # `c = f(...)` ... `await c`: the step is the await of that call (one stand-in expression per site)
+                    e = self.an.await_syn.setdefault(id(e), ast.copy_location(ast.Await(value=inner), e))
+                    self.an.awaited_via[id(e)] = inner
                 n = self.mk("await", e, stmt)
-                inner = strip_cast(e.value)
                 acal = (self._assumed_callee(inner) or self.sc.callee(inner)) if isinstance(inner, ast.Call) else None
                 t = self._inline_target(acal, True) if acal is not None else None
                 if t is not None:
@@ -1105,7 +1126,40 @@ class Builder:
         return k
 
     # -------------------------------------------------------------- statements
+    def _note_flag_tests(self, body: List[ast.stmt]) -> None:
+        """`c = <pure condition>` followed (only simple assignments / log calls in between) by `if c:` / `if not c:` in the same
+        block, c bound once and used nowhere else: the branch is a branch on the condition"""
+        for i, st in enumerate(body):
+            if not isinstance(st, ast.If) or id(st) in self.test_subst:
+                continue
+            tst, neg = st.test, False
+            while isinstance(tst, ast.UnaryOp) and isinstance(tst.op, ast.Not):
+                tst, neg = tst.operand, not neg
+            if not isinstance(tst, ast.Name) or tst.id in self.sc.params:
+                continue
+            hows = self.sc.defs.get(tst.id, [])
+            if len(hows) != 1 or hows[0][0] not in ("assign", "ann"):
+                continue
+            val = hows[0][1] if hows[0][0] == "assign" else hows[0][2]
+            if val is None or any(isinstance(x, (ast.Await, ast.Yield, ast.YieldFrom, ast.NamedExpr, ast.Lambda)) for x in ast.walk(val)):
+                continue
+            if not isinstance(val, (ast.Compare, ast.BoolOp, ast.UnaryOp, ast.Call, ast.Attribute, ast.Subscript)):
+                continue
+            # the binding is an earlier statement of this very block, with nothing but simple statements in between
+            j = next((jj for jj in range(i - 1, -1, -1) if isinstance(body[jj], (ast.Assign, ast.AnnAssign)) and getattr(body[jj], "value", None) is val), None)
+            if j is None:
+                continue
+            between_ok = all(isinstance(x, (ast.Assign, ast.AnnAssign)) and not any(isinstance(y, (ast.Call, ast.Await)) for y in ast.walk(x))
+                             or (isinstance(x, ast.Expr) and isinstance(x.value, ast.Call) and isinstance(x.value.func, ast.Attribute)
+                                 and isinstance(x.value.func.value, ast.Name) and x.value.func.value.id == "log") for x in body[j + 1:i])
+            uses = [x for x in ast.walk(self.f.node) if isinstance(x, ast.Name) and x.id == tst.id and isinstance(x.ctx, ast.Load)]
+            if not between_ok or len(uses) != 1:
+                continue
+            self.test_subst[id(st)] = ast.copy_location(ast.UnaryOp(op=ast.Not(), operand=val), st.test) if neg else val
+
     def stmts(self, body: List[ast.stmt], k: Node, ctx: Ctx) -> Node:
+        if self.an.known_funcs is not None:
+            self._note_flag_tests(body)
         if self.an.known_funcs is not None:
             for i, st in enumerate(body):
                 fl = self._flag_assign(st, body[i + 1:])
@@ -1293,7 +1347,8 @@ class Builder:
                 neg, aw, call, t = fc
                 b_then, b_else = self.stmts(st.body, k, ctx), self.stmts(st.orelse, k, ctx)
                 return self._inline_threaded(aw, call, t, b_else if neg else b_then, b_then if neg else b_else, ctx, st)
-            br = self.mk("test", st.test, st)
+            # `_c = <condition>` right before `if _c:`: the test step reads the condition itself
+            br = self.mk("test", self.test_subst.get(id(st), st.test), st)
             c = self._const_truth(st.test)
             if c is None:
                 c = self._assumed(st.test)
